@@ -7,6 +7,7 @@ define_language! {
         F(Slot, Slot) = "f",
         G(Slot, Slot) = "g",
         H(Slot, Slot, Slot) = "h",
+        W(Slot, Slot, Slot, Slot) = "w",
     }
 }
 
@@ -18,6 +19,9 @@ define_language! {
         K(Slot, Slot) = "k",
         U(AppliedId) = "u",
         J(Slot, Slot) = "j",
+        T3(Slot, Slot, Slot) = "t3",
+        S3(Slot, Slot, Slot) = "s3",
+        M3(Slot, Slot, Slot) = "m3",
     }
 }
 
@@ -60,7 +64,7 @@ pub struct Weighted;
 impl CostFunction<Lb> for Weighted {
     type Cost = u64;
     fn cost<C>(&self, enode: &Lb, costs: C) -> u64 where C: Fn(Id) -> u64 {
-        let w: u64 = match enode { Lb::Var(_) => 1, Lb::App(..) => 3, Lb::Lam(_) => 2, Lb::K(..) => 5, Lb::U(_) => 1, Lb::J(..) => 4 };
+        let w: u64 = match enode { Lb::Var(_) => 1, Lb::App(..) => 3, Lb::Lam(_) => 2, Lb::K(..) => 5, Lb::U(_) => 1, Lb::J(..) => 4, Lb::T3(..) => 6, Lb::S3(..) => 7, Lb::M3(..) => 9 };
         let mut s = w;
         for x in enode.applied_id_occurrences() {
             s = s.saturating_add(costs(x.id));
@@ -73,6 +77,6 @@ pub struct WeightedF;
 impl CostFunction<Lf> for WeightedF {
     type Cost = u64;
     fn cost<C>(&self, enode: &Lf, _costs: C) -> u64 where C: Fn(Id) -> u64 {
-        match enode { Lf::F(..) => 3, Lf::G(..) => 2, Lf::H(..) => 5 }
+        match enode { Lf::F(..) => 3, Lf::G(..) => 2, Lf::H(..) => 5, Lf::W(..) => 7 }
     }
 }
